@@ -663,6 +663,7 @@ pub fn add_dev_classes(suite: &str, rng: &mut Rng, sink: &mut Sink, thorough: bo
 /// frame: N < 2^16) and it fits that window's size limit.  Exactly the accepted frames with a
 /// port > 0 are delivered, in order; a frame accepted in a Class A window is the response.
 pub fn oracle_c05_dev(op: &str, outs: &[String]) -> String {
+    let region = op.split(';').next().unwrap_or("").split_whitespace().nth(2).unwrap_or("");
     let evs: Vec<&str> = op.split(';').skip(1).map(|s| s.trim()).collect();
     let mut last: Option<u32> = None;
     let mut joined = false;
@@ -728,7 +729,7 @@ pub fn oracle_c05_dev(op: &str, outs: &[String]) -> String {
                 for c in body.split(" => ").next().unwrap_or("").split(';') {
                     if c.starts_with("srx(") {
                         let f: Vec<&str> = c.trim_start_matches("srx(").trim_end_matches(')').split(',').collect();
-                        mp = f.get(3).and_then(|x| x.parse().ok());
+                        mp = ref_mp(region, &f);
                     }
                 }
             }
@@ -771,7 +772,7 @@ pub fn oracle_c05_dev(op: &str, outs: &[String]) -> String {
             }
             if c.starts_with("srx(") {
                 let f: Vec<&str> = c.trim_start_matches("srx(").trim_end_matches(')').split(',').collect();
-                mp = f.get(3).and_then(|x| x.parse().ok());
+                mp = ref_mp(region, &f);
                 continue;
             }
             if !(c == "rxc" || c == "rxs") || !item.starts_with('R') {
@@ -973,6 +974,7 @@ pub fn oracle_dev_all(op: &str, outs: &[String]) -> String {
 /// is authentic, fresh and fits the size limit of the window that was opened (`rxreq(..)`); only
 /// then is anything delivered
 pub fn oracle_c05_nb(op: &str, outs: &[String]) -> String {
+    let region = op.split(';').next().unwrap_or("").split_whitespace().nth(2).unwrap_or("");
     let evs: Vec<&str> = op.split(';').skip(1).map(|s| s.trim()).collect();
     let mut last: Option<u32> = None;
     let mut joined = false;
@@ -1000,7 +1002,7 @@ pub fn oracle_c05_nb(op: &str, outs: &[String]) -> String {
         }
         if let Some(i) = o.find("rxreq(") {
             let f: Vec<&str> = o[i + 6..].split(')').next().unwrap_or("").split(',').collect();
-            mp = f.get(3).and_then(|x| x.parse().ok());
+            mp = ref_mp(region, &f);
         }
         match w.first().copied() {
             Some("abp") => {
@@ -1595,4 +1597,12 @@ pub fn oracle_c20_dev_restore(op: &str, outs: &[String]) -> String {
         }
     }
     "ok".into()
+}
+
+/// Size limit of a window from its `(frequency, sf, bw, …)` fields: the REFERENCE maximum of that
+/// data rate in the region (macsuites::ref_max_m), never the number the implementation attached.
+fn ref_mp(region: &str, f: &[&str]) -> Option<u32> {
+    let sf: u32 = f.get(1)?.parse().ok()?;
+    let bw: u32 = f.get(2)?.parse().ok()?;
+    crate::macsuites::ref_max_m(region, sf, bw)
 }
